@@ -218,7 +218,9 @@ def run_history(ctx: Ctx, rng, store: backends.Store, kind: str, hidx: int) -> N
             else:
                 v = None
                 study.tell(tr, state=TrialState.FAIL)
-            hist[tr.number].update(state=outcome, values=v, cons=c)
+            hist[tr.number].update(state=outcome, values=v)
+            if c is not None:  # otherwise a constraint recorded at enqueue time stays in place
+                hist[tr.number]["cons"] = c
             ops.append(("tell", tr.number, outcome, v, c))
             if tr.number < len(hist) - 1:
                 flags.add("out_of_order_finish")
